@@ -268,3 +268,106 @@ Proof.
 Qed.
 
 (* what every result satisfies *)
+
+Lemma parse_pairs_forall ps : forall l, parse_pairs ps = Some (Some l) ->
+  forall bound, (forall p, In p ps -> lenN p <= bound) ->
+  Forall (fun kv => lenN (fst kv) + lenN (snd kv) <= bound) l.
+Proof.
+  induction ps as [|p rest IH]; intros l; cbn [parse_pairs].
+  - intro E; inversion E; subst. intros; constructor.
+  - destruct (parse_pair p) as [[kv|]|] eqn:P; cbn [obind]; try discriminate.
+    destruct (parse_pairs rest) as [[tl|]|]; cbn [obind]; try discriminate.
+    intro E; inversion E; subst. intros bound Hb. constructor.
+    + destruct kv as [k v]. apply parse_pair_len in P. cbn [fst snd]. specialize (Hb p (or_introl eq_refl)). lia.
+    + apply (IH tl eq_refl). intros q Hq. apply Hb. right; exact Hq.
+Qed.
+
+(* what every result satisfies: all fields are cut out of the input *)
+Theorem parse_sinful_bounded addr r :
+  parse_sinful addr = Some r ->
+  exists q,
+    cut_query (sinful_input addr) = Some (sf_primary r, q) /\
+    lenN (sf_primary r) + lenN q <= lenN addr /\
+    ((sf_host r = [] /\ sf_port r = []) \/ lenN (sf_host r) + lenN (sf_port r) + 1 = lenN (sf_primary r)) /\
+    (length (sf_params r) <= count_sep is_param_sep q + 1)%nat /\
+    Forall (fun kv => lenN (fst kv) + lenN (snd kv) <= lenN q) (sf_params r) /\
+    Forall (fun t => fst (fst t) <> [] /\ snd (fst t) <> []) (sf_ccb r).
+Proof.
+  rewrite parse_sinful_unfold. destruct (cut_query_spec (sinful_input addr)) as (p & q & Ec & Lc). rewrite Ec. cbn [obind].
+  pose proof (sinful_input_len addr) as Li.
+  destruct (split_host_port p) as [[h po]|] eqn:E; cbn [obind]; [|discriminate].
+  apply split_host_port_len in E.
+  destruct q as [|q0 q'].
+  - intro R; inversion R; subst; cbn [sf_primary sf_host sf_port sf_params sf_ccb]. exists [].
+    split; [reflexivity|]. split; [lia|]. split; [exact E|]. split; [cbn; lia|]. split; constructor.
+  - unfold parse_sinful_params.
+    destruct (parse_pairs (fields_by is_param_sep (q0 :: q') [])) as [[params|]|] eqn:P; cbn [obind]; [| |discriminate].
+    + destruct (ccb_contacts (ufields (param k_ccbid params))) as [ccb|] eqn:C; cbn [obind]; [|discriminate].
+      intro R; inversion R; subst; cbn [sf_primary sf_host sf_port sf_params sf_ccb]. exists (q0 :: q').
+      split; [reflexivity|]. split; [lia|]. split; [exact E|]. split.
+      * rewrite (parse_pairs_length _ _ P). apply fields_by_length.
+      * split.
+        -- apply (parse_pairs_forall _ _ P). intros f Hf. apply fields_by_len in Hf. rewrite lenN_nil in Hf. lia.
+        -- apply (ccb_contacts_nonempty _ _ C).
+    + intro R; inversion R; subst; cbn [sf_primary sf_host sf_port sf_params sf_ccb]. exists (q0 :: q').
+      split; [reflexivity|]. split; [lia|]. split; [exact E|]. split; [cbn; lia|]. split; constructor.
+Qed.
+
+Lemma In_firstn' (x : byte) n l : In x (firstn n l) -> In x l.
+Proof. intro H. rewrite <- (firstn_skipn n l). apply in_or_app. left; exact H. Qed.
+Lemma In_skipn' (x : byte) n l : In x (skipn n l) -> In x l.
+Proof. intro H. rewrite <- (firstn_skipn n l). apply in_or_app. right; exact H. Qed.
+Lemma go_slice_In s lo hi v x : go_slice s lo hi = Some v -> In x v -> In x s.
+Proof.
+  unfold go_slice. destruct ((0 <=? lo)%Z && (lo <=? hi)%Z && (hi <=? Z.of_N (lenN s))%Z); [|discriminate].
+  intro E; inversion E; subst. intro H. apply In_firstn' in H. apply In_skipn' in H. exact H.
+Qed.
+
+(* the only error is a malformed %XX escape: a query without '%' always parses *)
+Lemma parse_pair_no_percent p : no_percent p -> exists kv, parse_pair p = Some (Some kv).
+Proof.
+  intro H. unfold parse_pair. destruct (Z.ltb_spec (index_byte x3d p) 0); cbn [obind fst snd].
+  - rewrite (unescape_no_percent p H). cbn [unescape]. eexists; reflexivity.
+  - destruct (index_byte_bounds x3d p) as [E|E]; [lia|].
+    destruct (split_at_some p _ E) as (a & b & Ea & Eb & _). rewrite Ea, Eb. cbn [obind fst snd].
+    assert (Ha : no_percent a) by (intros x Hx; apply H; exact (go_slice_In _ _ _ _ _ Ea Hx)).
+    assert (Hb : no_percent b) by (intros x Hx; apply H; exact (go_slice_In _ _ _ _ _ Eb Hx)).
+    rewrite (unescape_no_percent a Ha), (unescape_no_percent b Hb). eexists; reflexivity.
+Qed.
+
+Lemma parse_pairs_no_percent ps : (forall p, In p ps -> no_percent p) -> exists l, parse_pairs ps = Some (Some l).
+Proof.
+  induction ps as [|p rest IH]; intro H; cbn [parse_pairs]; [eexists; reflexivity|].
+  destruct (parse_pair_no_percent p (H p (or_introl eq_refl))) as (kv & ->). cbn [obind].
+  destruct IH as (l & ->); [intros q Hq; apply H; right; exact Hq|]. cbn [obind]. eexists; reflexivity.
+Qed.
+
+Lemma rev'_In (x : byte) l : In x (rev' l) -> In x l.
+Proof. unfold rev'. rewrite <- rev_alt. intro H. apply in_rev. exact H. Qed.
+
+Lemma fields_by_in sep s : forall cur f x, In f (fields_by sep s cur) -> In x f -> In x cur \/ In x s.
+Proof.
+  induction s as [|y r IH]; intros cur f x; cbn [fields_by].
+  - destruct cur as [|c0 cur']; [intros []|]. intros [<-|[]] Hx. left. apply rev'_In. exact Hx.
+  - destruct (sep y).
+    + destruct cur as [|c0 cur'].
+      * intros Hf Hx. destruct (IH [] f x Hf Hx) as [[]|H]. right; right; exact H.
+      * intros [<-|Hf] Hx; [left; apply rev'_In; exact Hx|].
+        destruct (IH [] f x Hf Hx) as [[]|H]. right; right; exact H.
+    + intros Hf Hx. destruct (IH (y :: cur) f x Hf Hx) as [[<-|H]|H]; [right; left; reflexivity|left; exact H|right; right; exact H].
+Qed.
+
+Theorem parse_sinful_error_needs_percent addr r q :
+  parse_sinful addr = Some r -> cut_query (sinful_input addr) = Some (sf_primary r, q) ->
+  no_percent q -> sf_err r = false.
+Proof.
+  rewrite parse_sinful_unfold. intros R Ec Hq. rewrite Ec in R. cbn [obind] in R.
+  destruct (split_host_port (sf_primary r)) as [[h po]|]; cbn [obind] in R; [|discriminate].
+  destruct q as [|q0 q']; [inversion R; subst; reflexivity|].
+  unfold parse_sinful_params in R.
+  destruct (parse_pairs_no_percent (fields_by is_param_sep (q0 :: q') [])) as (l & P).
+  { intros f Hf x Hx. destruct (fields_by_in _ _ _ _ _ Hf Hx) as [[]|H]. apply Hq. exact H. }
+  rewrite P in R. cbn [obind] in R.
+  destruct (ccb_contacts (ufields (param k_ccbid l))); cbn [obind] in R; [|discriminate].
+  inversion R; subst; reflexivity.
+Qed.
